@@ -14,7 +14,7 @@ def fl(lo, hi):
 @st.composite
 def gaps(draw, k, kinds=None, max_ratio=1e3):
     """k positive gaps; returns (kind, list of gaps as floats)."""
-    kind = draw(st.sampled_from(kinds or ["unit", "fstep", "dyadic", "loguni", "motif", "hours"]))
+    kind = draw(st.sampled_from(kinds or ["unit", "fstep", "dyadic", "loguni", "motif", "hours", "tiny", "near-uniform"]))
     if k == 0:
         return kind, []
     if kind == "unit":
@@ -24,6 +24,19 @@ def gaps(draw, k, kinds=None, max_ratio=1e3):
     if kind == "fstep":
         h = draw(fl(1e-3, 1e3))
         return kind, [h] * k
+    if kind == "tiny":
+        # nanosecond-scale, clearly non-uniform: every gap is far below np.isclose / np.allclose absolute tolerances
+        unit = draw(st.sampled_from([1e-9, 1e-10, 1e-12]))
+        g = draw(st.lists(st.integers(1, 7), min_size=k, max_size=k))
+        return kind, [unit * v for v in g]
+    if kind == "near-uniform":
+        # a uniform step with a few gaps off by 1e-7 .. 1e-5 relative: inside allclose's rtol, far above rounding
+        h = draw(st.sampled_from([1.0, 0.5, 60.0, 3600.0, 0.1]))
+        out = [h] * k
+        for _ in range(draw(st.integers(1, 3))):
+            i = draw(st.integers(0, k - 1))
+            out[i] = h * (1 + draw(st.sampled_from([1e-7, -1e-7, 1e-6, -3e-6, 8e-6])))
+        return kind, out
     if kind == "dyadic":
         g = draw(st.lists(st.integers(1, 16), min_size=k, max_size=k))
         return kind, [v / 8.0 for v in g]
@@ -60,6 +73,16 @@ def xs(draw, m, kinds=None, max_ratio=1e3, allow_int=True, offsets=True):
         x0 = draw(fl(-1e3, 1e3))
         h = g[0] if g else 1.0
         x = [x0 + i * h for i in range(m)]
+    elif kind == "tiny":
+        x0 = draw(st.sampled_from([0.0, 1e-9, -3e-9]))
+        x = [x0]
+        for v in g:
+            x.append(x[-1] + v)
+    elif kind == "near-uniform":
+        x0 = float(draw(st.integers(-10, 10)))
+        x = [x0]
+        for v in g:
+            x.append(x[-1] + v)
     elif kind in ("dyadic", "motif"):
         x0 = draw(st.integers(-64, 64)) / 8.0
         x = [x0]
